@@ -351,7 +351,7 @@ type wireField struct {
 type rrType struct {
 	Name   string
 	Named  *types.Named
-	Embeds string // name of the embedded RR struct, "" if none
+	Embeds string      // name of the embedded RR struct, "" if none
 	Fields []wireField // all fields after the header, in order, including dns:"-" ones
 }
 
